@@ -104,6 +104,8 @@ PROPS = {
         "lean": "Emu.Props.C02",
         "diffs": [
             {"cmd": "gcs", "scenario": "c02", "quick": 120, "thorough": 3000},
+            # a payload larger than every buffer size in sight (10 MiB + 4 KiB) through the upload protocols, read back
+            {"cmd": "gcs", "scenario": "c02big", "quick": 1, "thorough": 8, "no_corpus": True},
         ],
         "facts": [],
         "trusted": GCS_TRUST,
